@@ -15,6 +15,7 @@
 import Proofs.PairSetup
 import Proofs.PairSetupOrigin
 import Proofs.PairSetupSym
+import Proofs.PairSetupHybrid
 import HapModel.Gen.SrpGroup
 namespace Hap.C01
 open Hap Hap.Tlv Hap.Srp Hap.PairSetup
@@ -341,6 +342,61 @@ theorem C01_symbolic (s0 s : PairSetupSym.SState) (h0 : ∀ t, s0.kn t → PairS
     (∀ t, s.kn t → PairSetupSym.safe t) ∧ s.verified = false ∧ s.paired = none :=
   PairSetupSym.sym_secure s0 s h0 hv0 hp0 hr
 
+/-! ### the Dolev–Yao attacker against the EXECUTABLE accessory (Proofs/PairSetupHybrid.lean)
+
+  `C01_symbolic` above is about a separate symbolic accessory.  The theorems below put the same attacker
+  in front of `PairSetup.step` itself — the model the differential run ties to pyhap. -/
+
+/-- **Format faithfulness.**  Under the interpretation that gives every term the bytes the executable
+    model computes for it (`interp`: `bval` ↦ the `B` of `setup_srp_verifier`, `skey` ↦ the premaster secret
+    of `set_A`, `hsh` ↦ the configured hash, `pair` ↦ concatenation), the symbolic expected proof denotes
+    exactly the proof `verify` compares with, and the symbolic accessory proof the `HAMK` it returns. -/
+theorem C01_symbolic_format (I : PairSetupHybrid.Interp) (hpub : PairSetupHybrid.PubConst I)
+    (salt b A : PairSetupSym.Tm) (hA : A ≠ PairSetupSym.Tm.zero) :
+    PairSetupHybrid.interp I (PairSetupSym.expM salt b A)
+      = (sessOf I.cfg (PairSetupHybrid.exchOf I (salt, b)) (PairSetupHybrid.interp I A)).M ∧
+    PairSetupHybrid.interp I (PairSetupSym.hamk salt b A)
+      = (sessOf I.cfg (PairSetupHybrid.exchOf I (salt, b)) (PairSetupHybrid.interp I A)).HAMK :=
+  PairSetupHybrid.interp_expM I hpub salt b A hA
+
+/-- **Dolev–Yao secrecy for the executable accessory.**  The accessory is `PairSetup.step` on bytes; the
+    attacker sends ANY request bytes in any order (M1, M5, unknown sequence numbers, garbage, M3 lacking a
+    field …), except that the `A` and proof items of a complete M3 denote terms it can derive from its
+    knowledge (it does not guess a 64-byte proof); the owner may unpair the accessory at any point; every
+    answer is learnt.  Hardness is ONE explicit hypothesis, `NoForge`: for `A ≢ 0 (mod N)` no term computable
+    without the setup code, honest secrets and session secrets denotes the expected proof (DESIGN 2.2:
+    SRP-6a is a PAKE for such `A`; for `A ≡ 0` the executable model refuses by itself, `C01_reject_kN`).
+    Then, from a driver without verifier and safe initial knowledge, along EVERY run: the knowledge stays
+    safe (the code is never learnt) and no served request is answered with the accessory's proof, with
+    M6, or by recording a pairing. -/
+theorem C01_symbolic_exec (I : PairSetupHybrid.Interp) (hpub : PairSetupHybrid.PubConst I)
+    (hnf : PairSetupHybrid.NoForge I) (ps0 : PS) (kn0 : PairSetupSym.Tm → Prop)
+    (hv : ps0.verifier = none) (hc : ps0.pincode = I.code) (hk : ∀ t, kn0 t → PairSetupSym.safe t)
+    (s : PairSetupHybrid.HState) (es : List XEvent)
+    (hr : PairSetupHybrid.HReach I ⟨ps0, Ghost.init, kn0, none, 0⟩ s es) :
+    (∀ t, s.kn t → PairSetupSym.safe t) ∧ verifiedNow s.ps = false ∧
+    ∀ x ∈ es, isO1 x.out = false ∧ isO2 x.out = false ∧ x.post.paired = x.pre.paired ∧
+      x.post = (step I.cfg x.pre x.req).1 ∧ x.out = (step I.cfg x.pre x.req).2.1 := by
+  obtain ⟨hi, hall⟩ := PairSetupHybrid.hybrid_secure I hpub hnf _ s es
+    (PairSetupHybrid.hinit I ps0 kn0 hv hc hk) hr
+  exact ⟨hi.safe, hi.unverified, hall⟩
+
+/-- `NoForge` must exclude `A ≡ 0 (mod N)`: for a public value that is a multiple of `N` (here the atom
+    `nonce 5` denoting `N = 23`) a term built from public values only denotes the expected proof — the
+    defect of the shipped code, seen as a collision. -/
+theorem C01_noforge_needs_nondegenerate :
+    let I : PairSetupHybrid.Interp :=
+      { cfg := { G := { N := 23, g := 5, nLen := 8 }, c := toyCrypto }, code := [2],
+        nonceB := fun n => if n = 0 then xorBytes (toyCrypto.H (natToBytes 23)) (toyCrypto.H (natToBytes 5)) ++ toyCrypto.H SRP_USER
+                           else if n = 5 then [23] else [3], secB := fun _ => [6] }
+    let salt := PairSetupSym.Tm.nonce 4
+    let b := PairSetupSym.Tm.sec 0
+    let At := PairSetupSym.Tm.nonce 5
+    let Mt := PairSetupSym.Tm.hsh (.pair (.nonce 0) (.pair salt (.pair At (.pair (.bval salt b) (.hsh .zero)))))
+    PairSetupSym.safe Mt ∧ At ≠ PairSetupSym.Tm.zero ∧
+    PairSetupHybrid.interp I Mt = PairSetupHybrid.interp I (PairSetupSym.expM salt b At) := by
+  refine ⟨by simp [PairSetupSym.safe], by simp, by decide +kernel⟩
+
 /-- the same symbolic accessory without the `A ≠ zero` test (the shipped code): an attacker knowing only
     public values gets its own key paired (`A = zero`, proof from public data, M5 under `H(zero)`). -/
 theorem C01_symbolic_legacy_attack :
@@ -420,5 +476,45 @@ example : AeadAuth toyCrypto := by
     rw [hk, h] at this
     exact this.symm
   · exact absurd h (by simp)
+
+/-- the hybrid system is not empty and `PubConst` is satisfiable: on the toy instance the attacker sends an
+    M1 (any bytes that are not a complete M3), learns `(salt, B)`, then a complete M3 whose `A` and proof
+    denote derivable terms (`g^a` for a known `a`, a hash of public values) — a run of two served
+    requests exists, the first answered M2, the second refused -/
+example :
+    let I : PairSetupHybrid.Interp :=
+      { cfg := { G := { N := 23, g := 5, nLen := 8 }, c := toyCrypto }, code := [2],
+        nonceB := fun n => if n = 0 then xorBytes (toyCrypto.H (natToBytes 23)) (toyCrypto.H (natToBytes 5)) ++ toyCrypto.H SRP_USER
+                           else [3], secB := fun _ => [6] }
+    let ps0 : PS := { pincode := [2], mac := [9], ltpk := [7], paired := [], verifier := none }
+    PairSetupHybrid.PubConst I ∧
+    ∃ s es, PairSetupHybrid.HReach I ⟨ps0, Ghost.init, PairSetupSym.init.kn, none, 0⟩ s es ∧
+      es.map (fun x => x.out) = [.m4AuthErr, .m2 [3] (Srp.mk toyCrypto.H I.cfg.G SRP_USER [2] [3] 6).Bb] := by
+  intro I ps0
+  refine ⟨rfl, ?_⟩
+  let s0 : PairSetupHybrid.HState := ⟨ps0, Ghost.init, PairSetupSym.init.kn, none, 0⟩
+  let r1 : Req := ⟨ctrlM1, [3], [6]⟩
+  have st1 := PairSetupHybrid.HStep.req (I := I) s0 r1 none
+    (PairSetupHybrid.Sendable.other r1 (by decide +kernel)) (by decide +kernel) (by decide +kernel)
+  let s1 : PairSetupHybrid.HState :=
+    { ps := (step I.cfg s0.ps r1).1, g := gNext I.cfg s0.ps s0.g r1,
+      kn := PairSetupHybrid.learnAns s0 none (step I.cfg s0.ps r1).2.1,
+      cur := PairSetupHybrid.curNext s0 (step I.cfg s0.ps r1).2.1, n := s0.n + 1 }
+  let At := PairSetupSym.Tm.gexp (.nonce 7)
+  let Mt := PairSetupSym.Tm.hsh (.nonce 8)
+  let r2 : Req := ⟨ctrlM3 (PairSetupHybrid.interp I At) (PairSetupHybrid.interp I Mt), [3], [6]⟩
+  have dn : ∀ k, PairSetupSym.Der s1.kn (.nonce k) := by
+    intro k
+    have : (step I.cfg s0.ps r1).2.1 = .m2 [3] (Srp.mk toyCrypto.H I.cfg.G SRP_USER [2] [3] 6).Bb := by
+      decide +kernel
+    show PairSetupSym.Der (PairSetupHybrid.learnAns s0 none (step I.cfg s0.ps r1).2.1) _
+    rw [this]
+    exact PairSetupSym.Der.ax (Or.inl ⟨k, rfl⟩)
+  have st2 := PairSetupHybrid.HStep.req (I := I) s1 r2 (some (At, Mt))
+    (PairSetupHybrid.Sendable.sym r2 At Mt (PairSetupSym.Der.gexp (dn 7))
+      (PairSetupSym.Der.hsh (dn 8)) (by decide +kernel) (by decide +kernel))
+    (by decide +kernel) (by decide +kernel)
+  refine ⟨_, _, PairSetupHybrid.HReach.step _ (PairSetupHybrid.HReach.step _ PairSetupHybrid.HReach.refl st1) st2, ?_⟩
+  decide +kernel
 
 end Hap.C01
